@@ -130,10 +130,19 @@ func errNilDominates(at ssa.Instruction, call *ssa.Call) bool {
 			continue
 		}
 		other = engine.LocalValue(other)
-		if ex, ok := other.(*ssa.Extract); ok && ex.Tuple == call {
-			return true
+		// every way `other` can be nil is the call's own error result
+		leaves := engine.NilLeaves(other)
+		all := len(leaves) > 0
+		for _, l := range leaves {
+			if ex, ok := l.(*ssa.Extract); ok && ex.Tuple == call {
+				continue
+			}
+			if l == ssa.Value(call) {
+				continue
+			}
+			all = false
 		}
-		if other == call {
+		if all {
 			return true
 		}
 	}
